@@ -462,3 +462,80 @@ Section EntryStep.
     - rewrite (Hopen eq_refl). reflexivity.
   Qed.
 End EntryStep.
+
+Lemma is_open_denote e : is_open (denote_entry e) = is_open_value (se_value e).
+Proof. unfold is_open, denote_entry. cbn [e_value]. destruct (se_value e); reflexivity. Qed.
+
+Lemma count_open_cons e es : count_open (e :: es) = ((if is_open_value (se_value e) then 1 else 0) + count_open es)%nat.
+Proof. unfold count_open. cbn [filter]. destruct (is_open_value (se_value e)); reflexivity. Qed.
+
+Lemma no_double_prefix_entries i es ls : forallb wf_entry es = true ->
+  map l_text ls = map utf8_encode (flat_map (entry_texts (indent_text i)) es) ->
+  no_double_prefix (indent_text i) ls.
+Proof.
+  intros W M. destruct es as [|e es]; [destruct ls; [exact I|discriminate]|].
+  cbn [flat_map entry_texts app map] in M. destruct ls as [|l ls]; [discriminate|]. injection M as Ml _.
+  cbn [forallb] in W. apply andb_true_iff in W as [We _].
+  destruct (entry_line_bytes i e We) as (c & x & Eb & Hc).
+  change (l_text l = utf8_encode (indent_text i ++ render_value (se_value e) ++ first_tail e)) in Ml.
+  unfold no_double_prefix. rewrite Ml, Eb, has_prefix_app_same.
+  apply has_prefix_indent_head. exact Hc.
+Qed.
+
+Lemma parse_entries_spec i es : forallb wf_entry es = true ->
+  forall fuel ln ls acc,
+  map l_text ls = map utf8_encode (flat_map (entry_texts (indent_text i)) es) ->
+  (length ls <= fuel)%nat ->
+  (count_open es + (if has_open_entry acc then 1 else 0) <= 1)%nat ->
+  parse_entries fuel (indent_text i) ln ls acc [] = (acc ++ map denote_entry es, []).
+Proof.
+  induction es as [|e es IH]; intros W fuel ln ls acc M Hf Ho.
+  - destruct ls; [|discriminate]. cbn [map]. rewrite app_nil_r. destruct fuel; reflexivity.
+  - cbn [forallb] in W. apply andb_true_iff in W as [We W].
+    cbn [flat_map] in M. unfold entry_texts at 1 in M. cbn [app map] in M.
+    destruct ls as [|l ls]; [discriminate|]. injection M as Ml M.
+    rewrite map_app in M. apply map_eq_app in M as (ls_m & ls_r & -> & Mm & Mr).
+    rewrite map_map in Mm.
+    destruct fuel as [|k]; [cbn [length] in Hf; lia|].
+    rewrite count_open_cons in Ho.
+    rewrite (entry_step i e We k ln l ls_m ls_r acc [] Ml Mm (no_double_prefix_entries i es ls_r W Mr)).
+    + rewrite (IH W k _ ls_r (acc ++ [denote_entry e]) Mr).
+      * cbn [map]. rewrite <- app_assoc. reflexivity.
+      * cbn [length] in Hf. rewrite app_length in Hf. lia.
+      * unfold has_open_entry in *. rewrite existsb_app. cbn [existsb]. rewrite is_open_denote, orb_false_r.
+        destruct (existsb is_open acc); destruct (is_open_value (se_value e)); cbn [orb] in *; lia.
+    + intros Hop. rewrite Hop in Ho. destruct (has_open_entry acc); [lia|reflexivity].
+Qed.
+
+(* ================= one block ================= *)
+
+Lemma record_text_not_blank r t : wf_record r = true -> In t (record_texts r) -> blank_text t = false.
+Proof.
+  intros W Hin. unfold wf_record in W. repeat (apply andb_true_iff in W as [W ?]).
+  unfold record_texts in Hin. destruct Hin as [<- | Hin].
+  - (* headline: begins with a digit *)
+    unfold headline_text, render_date, four_digits. cbn [app blank_text forallb].
+    unfold wf_date in W. assert (0 <= sd_year (sr_date r) / 1000 <= 9) by (Z.div_mod_to_equations; lia).
+    replace ((dchar (sd_year (sr_date r) / 1000) =? 32)%N || (dchar (sd_year (sr_date r) / 1000) =? 9)%N) with false by (unfold dchar; lia).
+    reflexivity.
+  - apply in_app_or in Hin as [Hin | Hin].
+    + (* summary line: begins with a non-blank character *)
+      rewrite forallb_forall in H1. specialize (H1 t Hin). unfold summary_line_ok in H1. apply andb_true_iff in H1 as [_ Hd].
+      destruct t as [|c t']; [discriminate|]. apply negb_true_iff in Hd. apply blank_char_space_or_tab in Hd.
+      cbn [blank_text forallb]. unfold is_space_or_tab in Hd. rewrite Hd. reflexivity.
+    + apply in_flat_map in Hin as (e & He & Hin). rewrite forallb_forall in H0. specialize (H0 e He).
+      pose proof H0 as We. unfold wf_entry in H0. apply andb_true_iff in H0 as [W1 Wm]. apply andb_true_iff in W1 as [Wv Wf].
+      unfold entry_texts in Hin. destruct Hin as [<- | Hin].
+      * (* entry line: holds the first character of the value *)
+        pose proof (render_value_head _ Wv) as Hd. destruct (render_value (se_value e)) as [|c rv]; [contradiction|].
+        unfold blank_text. rewrite !forallb_app. cbn [forallb]. unfold is_space_or_tab in Hd. rewrite Hd.
+        cbn [andb]. apply andb_false_r.
+      * (* continuation line: not only blank characters *)
+        apply in_map_iff in Hin as (t' & <- & Hin). rewrite forallb_forall in Wm. specialize (Wm t' Hin).
+        apply andb_true_iff in Wm as [_ Nb]. apply negb_true_iff in Nb.
+        unfold blank_text. rewrite !forallb_app.
+        assert (forallb (fun c => ((c =? 32) || (c =? 9))%N) t' = false).
+        { destruct (forallb (fun c => ((c =? 32) || (c =? 9))%N) t') eqn:E; [|reflexivity].
+          rewrite <- Nb. symmetry. unfold all_blank. revert E. apply forallb_impl. intros c. unfold blank_char, space_separator. lia. }
+        rewrite H0. rewrite !andb_false_r. reflexivity.
+Qed.
